@@ -220,9 +220,10 @@ pub fn c14(tier: &str) -> i32 {
     let inputs: Vec<Vec<u8>> = vec![vec![], vec![0xff; 64], (1..=120u8).collect(), vec![0x5a; 300]];
     for p in 0..=5u8 {
         for cfg in [Cfg::new(p), Cfg::new(p).flags(true, true).muts(&FULL, 0.5, true), Cfg::new(p).range(200, 400)] {
-            for s in 0..if quick { 40u64 } else { 2000 } {
+            let ns = if quick { 40u64 } else { 2000 };
+            for s in crate::report::sweep_base(ns)..crate::report::sweep_base(ns) + ns {
                 jobs.push((cfg.clone(), s, vec![Call::Seeded]));
-                if s < 8 {
+                if s - crate::report::sweep_base(ns) < 8 {
                     jobs.push((cfg.clone(), s, vec![Call::Seeded, Call::Reset, Call::Seeded, Call::Bytes(inputs[(s % 4) as usize].clone())]));
                     jobs.push((cfg.clone(), s, vec![Call::Bytes(inputs[(s % 4) as usize].clone()), Call::Bytes(inputs[((s + 1) % 4) as usize].clone()), Call::Reset]));
                 }
